@@ -22,7 +22,7 @@ META = {
 LEVEL = META['level']
 RULE = ('a case = one member list executed both ways from one initial state; distinct by (configuration, initial state, bundle bytes); non-trivial = at least two members and at least one write')
 ASSUMPTIONS = ['both executions use the in-process frame pipeline (bytes in, bytes out) with identical configuration and initial values']
-REQUIRED = ['bundles', 'members', 'members:failing', 'members:unroutable-alone', 'members:write', 'members:read', 'members:attribute-service', 'bundle:size>=10',
+REQUIRED = ['members:standard-object', 'bundles', 'members', 'members:failing', 'members:unroutable-alone', 'members:write', 'members:read', 'members:attribute-service', 'bundle:size>=10',
             'monitor:member-bytes-equal', 'monitor:state-equal', 'monitor:offset-table', 'bundle:overlapping-writes']
 TIMEOUT = {'quick': 300, 'thorough': 2400}
 SOFT = {'quick': 30, 'thorough': 600}
@@ -116,7 +116,7 @@ def run_bundle(ctx, cfg, members, init, wit):
     if len(members) >= 10:
         ctx.count('bundle:size>=10')
     for i, (m, (stB, repB, outB, unchanged)) in enumerate(zip(members, singles)):
-        kind = next(k for k in ('read_tag', 'read_frag', 'write_tag', 'write_frag', 'get_attribute_single', 'set_attribute_single') if k in m)
+        kind = next(k for k in ('read_tag', 'read_frag', 'write_tag', 'write_frag', 'get_attribute_single', 'set_attribute_single', 'get_attributes_all') if k in m)
         ctx.count('members:' + ('write' if kind.startswith('write') else 'read' if kind.startswith('read') else 'attribute-service'))
         inb = rc.dec_reply(slices[i])
         if inb['status'] not in (0, 6):
@@ -167,6 +167,14 @@ def run(ctx):
         cfg = [(nm, t, min(s, 5) if t in ('SSTRING', 'STRING') else s, a) for nm, t, s, a in cfg]
         k = rng.choice([1, 2, 2, 3, 5, 8, 12, 24])
         members = [reqgen.gen_request(rng, cfg, p_invalid=0.35)[1] for _ in range(k)]
+        # members addressed to the simulator's standard objects (Identity, TCP/IP, the Message Router's own class attributes):
+        # the bundle's target must stay the bundle's target whatever a member addresses
+        for _ in range(rng.choice([0, 0, 1, 2])):
+            std = rng.choice([[{'class': 1}, {'instance': 1}, {'attribute': rng.choice([1, 2, 6, 7])}], [{'class': 0xF5}, {'instance': 1}, {'attribute': 6}],
+                              [{'class': 2}, {'instance': 0}, {'attribute': 1}], [{'class': 1}, {'instance': 1}]])
+            m = {'path': {'segment': std}, 'get_attribute_single': True} if len(std) == 3 else {'path': {'segment': std}, 'get_attributes_all': True}
+            members.insert(rng.randrange(len(members) + 1), m)
+            ctx.count('members:standard-object')
         if rng.random() < 0.3 and len(members) > 1:
             members.append(members[rng.randrange(len(members))])      # a duplicate
         init = init_values(rng, cfg)
